@@ -1058,3 +1058,8 @@ def g_gate_rnd_back(rng, level=0, n_random=80):
         N = int(rng.integers(1, 5))
         q = tuple(range(N)) if (k % 3 == 0 or N == 1) else _local_qubits(rng, N)
         yield {'self': ci.CliffordGate(*q), 'obj': _rand_state(rng, N)}
+
+
+for _k in ('Pauli.as_list', 'Pauli.as_monomial', 'Pauli.as_polynomial', 'Pauli.tokenize'):
+    gen(PA + _k)(g_pauli)
+gen(PA + 'PauliList.as_polynomial')(g_plist)
